@@ -37,3 +37,4 @@ impl RequestHandler for RequestHandlerWrapper {
 //@|    ensures exists|x: Option<ffi::WriteResult>| #[trigger] old(self).write_handler.may_write_single_register(value.index, value.value, x)
 //@|        && r == (match x { Some(w) => spec_write_result(w), None => Err::<(), ExceptionCode>(ExceptionCode::IllegalFunction) }),
 }
+//@include frag/ffi_server_create.tpl
